@@ -283,6 +283,14 @@ def check_window(ctx, P):
             for e, v, o in facts:
                 if e[0] == "disc" and isinstance(v, tuple) and v[0] == "in" and "cmp(" in pred.short(e, fn):
                     ordv = (v[1], pred.short(e, fn))
+            if ordv is None:
+                # comparison form: the call sits under `d > 0` / `d < 0` as linear branch facts on the digit d = slide(..)[i]
+                for f_ in pred.facts_at(fn, c.bb):
+                    if f_[0] == "le" and len(f_[1]) == 1 and f_[2] == -1:
+                        (nm_, co_), = f_[1]
+                        if re.search(r"slide\(arg\d\)\[", nm_) and "Div" not in nm_ and "Neg(" not in nm_:
+                            sh_ = re.sub(r"curve25519::scalar::<impl curve25519::scalar::scalar\d\d::Scalar>::", "Scalar::", nm_)
+                            ordv = ((1,) if co_ == -1 else (-1,) if co_ == 1 else (), "cmp(%s)" % sh_)
             uses.append(("add" if "::add" in nm else "sub", "precomp" if "GePrecomp" in nm else "cached", idx[-60:], ordv, is_bi if "GePrecomp" in nm else is_ai))
     ok = len(uses) == 4
     good = 0
